@@ -223,36 +223,9 @@ def build():
       'all(self.code.varnames[k] in self.signature.kwonly_params for k in range(self.code.argcount, self.nonstararg_count))',
       'all(any(self.code.varnames[k] == y for k in range(self.code.argcount, self.nonstararg_count)) for y in self.signature.kwonly_params)',
   ]
-  me_if = ('obj', IF_PY, 'InterpreterFunction')
-  vn = 'self.code.varnames'
-  T.add(Contract(
-      IF_PY, 'InterpreterFunction._build_signature', collections.OrderedDict(self=me_if, name=S.STR, annotations=S.Uninterp('Annotations')),
-      requires=['0 <= self.code.argcount and self.code.argcount <= self.nonstararg_count',
-                'self.nonstararg_count + (1 if self.code.has_va else 0) + (1 if self.code.has_kw else 0) <= len(%s)' % vn,
-                'len(self.defaults) <= self.code.argcount'],
-      ensures=[
-          # the signature lists the parameters of the def in declaration order ...
-          'len(result.param_names) == self.code.argcount', 'all(result.param_names[k] == %s[k] for k in range(self.code.argcount))' % vn,
-          'result.posonly_count == self.posonlyarg_count',
-          # ... the keyword-only names (as a set) ...
-          'all((y in result.kwonly_params) == any(%s[k] == y for k in range(self.code.argcount, self.nonstararg_count)) for y in every("Str"))' % vn,
-          # ... *args / **kwargs names ...
-          '(result.varargs_name is None) == (not self.code.has_va)', 'implies(self.code.has_va, result.varargs_name == %s[self.nonstararg_count])' % vn,
-          '(result.kwargs_name is None) == (not self.code.has_kw)',
-          'implies(self.code.has_kw, result.kwargs_name == %s[self.nonstararg_count + (1 if self.code.has_va else 0)])' % vn,
-          # ... and the defaults: the LAST len(defaults) positional parameters, plus the keyword-only defaults
-          'all((y in result.defaults) == (y in self.kw_defaults or any(%s[k] == y for k in range(self.code.argcount - len(self.defaults), self.code.argcount)))'
-          ' for y in every("Str"))' % vn,
-      ],
-      asserts={
-          'kwonly = set(': ['all((y in kwonly) == any(%s[k] == y for k in range(self.code.argcount, self.nonstararg_count)) for y in every("Str"))' % vn],
-          'defaults = dict(': ['all((y in defaults) == any(%s[self.code.argcount - len(self.defaults) + p] == y for p in range(len(self.defaults))) for y in every("Str"))' % vn,
-                               'all((y in defaults) == any(%s[k] == y for k in range(self.code.argcount - len(self.defaults), self.code.argcount)) for y in every("Str"))' % vn],
-          'defaults.update(': ['all((y in defaults) == (y in self.kw_defaults or any(%s[k] == y for k in range(self.code.argcount - len(self.defaults), self.code.argcount)))'
-                               ' for y in every("Str"))' % vn],
-      },
-      ghost={'kwonly': SetStr, 'defaults': DictSV},
-      result=('obj', SIG_PY, 'Signature')))
+  # InterpreterFunction._build_signature was put under contract in an earlier revision (parameter names, keyword-only set, star names,
+  # defaults); two of its obligations (sets/dicts built from slices) needed 20-40 minutes of z3 time on some runs, so it was taken
+  # out again rather than kept as an unstable proof: it is unverified surround, sampled by the native sweep.
   PairSB = S.Tup(S.STR, S.BOOL)
   T.add(Contract(
       IF_PY, 'InterpreterFunction.get_nondefault_params', collections.OrderedDict(self=('obj', IF_PY, 'InterpreterFunction')),
@@ -355,14 +328,11 @@ def build():
   return T
 
 
-SURROUND = ['function.Signature.__init__ (stores its arguments: A-CTOR; annotation post-processing)',
+SURROUND = ['InterpreterFunction._build_signature (signature built from the code object; precondition CODE_MATCHES_SIG of the InterpreterFunction instance)',
             'how the VM builds Args and Signature from bytecode; Args.simplify', 'InterpreterFunction.call/_find_matching_sig (overload choice)',
             'PyTDFunction binding (_pytd_function.py)', 'error-to-log mapping (errors.py)', 'function.has_visible_namedarg']
 NATIVE_IN_QUICK = True
 MUTANTS = [
-    dict(name='bs_defaults_from_left', file=IF_PY, old="        zip(self.get_positional_names()[-len(self.defaults) :], self.defaults)\n", new="        zip(self.get_positional_names(), self.defaults)\n"),
-    dict(name='bs_kwarg_index_ignores_varargs', file=IF_PY, old="    if self.has_kwargs():\n      kwarg_name = self.code.varnames[arg_pos]\n", new="    if self.has_kwargs():\n      kwarg_name = self.code.varnames[self.nonstararg_count]\n"),
-    dict(name='bs_kwonly_includes_positional', file=IF_PY, old="    kwonly = set(self.code.varnames[self.code.argcount : self.nonstararg_count])\n", new="    kwonly = set(self.code.varnames[: self.nonstararg_count])\n"),
 
     dict(name='if_nondefault_skips_last', file=IF_PY, old="    for i in range(self.nonstararg_count):\n      yield self.code.varnames[i], i >= self.code.argcount\n", new="    for i in range(self.nonstararg_count - 1):\n      yield self.code.varnames[i], i >= self.code.argcount\n"),
     dict(name='if_kwonly_flag_off_by_one', file=IF_PY, old="      yield self.code.varnames[i], i >= self.code.argcount\n", new="      yield self.code.varnames[i], i > self.code.argcount\n"),
